@@ -282,6 +282,20 @@ def errors_shard(args):
                   ("type", 'std.format("%d", function(x) x)', None, None), ("type", 'std.format("%s", [function(x) x])', None, None),
                   ("type", 'std.format("%*d", [-5, 1])', None, None), ("type", 'std.format("%*d", [1e308, 1])', None, None),
                   ("type", 'std.format("%.*f", [-1, 1])', None, None), ("type", 'std.format("%.*f", [1e10, 1])', None, None)]
+        # the same mismatch through every entry point (std.format, the % operator, std.mod), and format strings without
+        # any directive ('' / text / only %%) with every argument shape
+        more = []
+        for kind, src, f, arg in cases:
+            m = re.fullmatch(r'std\.format\((".*"|1), (.*)\)', src)
+            if m and kind != "malformed":
+                more.append((kind, "%s %% %s" % (m.group(1), m.group(2)), f, arg))
+                more.append((kind, "std.mod(%s, %s)" % (m.group(1), m.group(2)), f, arg))
+        for fmt in ('""', '"abc"', '"100%%"', '"%%"', '"a b c"', '"\u20ac"'):
+            for arg, bad in (("[1]", True), ("[1, 2]", True), ("1", True), ('"s"', True), ("null", True), ("[[]]", True), ("true", True),
+                             ("[]", False), ("{}", False), ("{a: 1}", False)):
+                for entry in ("std.format(%s, %s)", "%s %% %s", "std.mod(%s, %s)"):
+                    more.append(("nodirective_count" if bad else "nodirective_ok", entry % (fmt, arg), None, None))
+        cases += more
         for kind, src, f, arg in cases:
             r = ev.run(src)
             if r.cls == "inconclusive":
@@ -306,7 +320,15 @@ def errors_shard(args):
                 if not py_ok and r.cls == "value" and unambiguous and arg in ("[1]", "[1, 2]", "{a: 1}"):
                     agg.violation({"kind": "malformed_format_accepted", "fmt": f},
                                   {"src": src, "got": r.brief()}, {"script": r.lines})
-            elif kind in ("count", "key") or src in ('std.format("%d", ["x"])', 'std.format("%c", ["ab"])',
+            elif kind == "nodirective_count":
+                if r.cls == "value":
+                    agg.violation({"kind": "mismatch_accepted", "src": re.sub(r'"[^"]*"', '"..."', src)[:40]}, {"src": src, "got": r.brief()},
+                                  {"script": r.lines})
+            elif kind == "nodirective_ok":
+                if r.cls != "value":
+                    agg.violation({"kind": "directive_free_format_rejected", "src": re.sub(r'"[^"]*"', '"..."', src)[:40]},
+                                  {"src": src, "got": r.brief()}, {"script": r.lines})
+            elif kind in ("count", "key") or re.sub(r"^std\.mod\((.*)\)$|^(\".*\") % (.*)$", lambda m_: "std.format(%s)" % m_.group(1) if m_.group(1) else "std.format(%s, %s)" % (m_.group(2), m_.group(3)), src) in ('std.format("%d", ["x"])', 'std.format("%c", ["ab"])',
                                                     'std.format("%c", [1114112])', 'std.format("%c", [55296])',
                                                     'std.format("%d", [null])', 'std.format("%*d", ["w", 1])'):
                 if r.cls == "value" and src != 'std.format("%(a)d %d", {a: 1})':
